@@ -44,6 +44,8 @@ def gen(rng, tier):
         yield "sw %s sig %s" % (every(600), hx(raw))
         yield "sw multi:%d:%d:%d sig %s" % (rng.randrange(1 << 30), 25, rng.choice([5, 20, 60]), hx(raw))
         yield "sw all ver %s -" % hx(raw)
+        yield "swn all ver %s -" % hx(raw)             # without the pool of released hash objects every hash is an allocation
+        yield "swn %s sig %s" % (every(600), hx(raw))
         yield "sw all ver %s %s" % (hx(raw), hx(s.chains[0].input_hash if not s.rfc else s.rfc.input_hash))
         bad = s.clone(); h = bytearray(bad.chains[-1].links[-1].data); h[-1] ^= 1
         if bad.chains[-1].links[-1].kind == "h":
@@ -61,6 +63,7 @@ def gen(rng, tier):
             yield "sw all ext %s %d %d %s %s" % (hx(raw), p, ver, hx(b"anon"), hx(C08.reply(ver, 1, 0x101, None)))      # the extender refuses
             same = C08.new_chain(rng, s, t0, s.cal.pub_time, root)
             yield "sw %s vcal %s - %d %s %s" % (every(600), hx(raw), ver, hx(b"anon"), hx(C08.reply(ver, 1, 0, same)))
+            yield "swn %s vcal %s - %d %s %s" % (every(600), hx(raw), ver, hx(b"anon"), hx(C08.reply(ver, 1, 0, same)))
         # signing
         alg = rng.choice([1, 4, 5])
         hsh = bytes([alg]) + rng.randbytes(S.DLEN[alg])
@@ -82,6 +85,7 @@ def gen(rng, tier):
         yield "sw all ereq %d %d %d" % (1400000000, 1400100000, ver)
     for n, m in ((1, 0), (2, 0), (3, 2), (9, 4), (16, 3), (33, 5)) + (((100, 7),) if big else ()):
         yield "sw all tree %d %d %d" % (rng.choice([1, 4]), n, m)
+        if n in (3, 9): yield "swn all tree %d %d %d" % (rng.choice([1, 4]), n, m)
         yield "sw multi:%d:%d:%d tree 1 %d %d" % (rng.randrange(1 << 30), 30, rng.choice([5, 20, 60]), n, m)
     for n, m in ((1, 0), (4, 2), (9, 3)):
         yield "sw %s bsig %d %d %d" % ("all" if (big or n == 1) else "every:%d:%d" % (n, rng.randrange(1, 4)), rng.choice([1, 4]), n, m)
@@ -110,7 +114,7 @@ CONFIG.engines = [Engine("c19", ["exec_c19.c"], "drv_c19", gen, trivial=trivial,
 CONFIG.rule = ("one line per sweep. The executor compiles the SDK's allocation funnel (KSI_malloc / KSI_calloc / KSI_free, base.c) with counting, failing "
                "versions of malloc / calloc / free, so exactly the SDK's own requests are numbered and refused. For a catalogue operation and its "
                "arguments: a fault-free run counts N requests; then for every k = 1..N (every s-th k when N > 700 in the quick tier) and for random "
-               "fault sets (each request refused with probability 1/density) a NEW context and NEW inputs are set up without faults, the operation "
+               "fault sets (each request refused with probability 1/density) a NEW context (for `swn` lines with its pool of released hash objects switched off, so that every hash is an allocation) and NEW inputs are set up without faults, the operation "
                "runs under the fault(s), is repeated on the same context and objects without faults, and everything including the context is freed. "
                "Catalogue: integer lists (lst, list), KSI_TLV parse / nested lists / clone / serialize (tlvp, tlv), KSI_TlvElement, signature parse + "
                "serialize + clone + identity, the asynchronous and the high-availability signing service on a scripted socket, the block signer (masking, metadata, every leaf's signature), calendar-based verification through the file transport, internal verification (verifying and non-verifying signatures, with document hash), aggregation and "
@@ -158,7 +162,7 @@ def evidence_extra(ctx):
     mid = os.path.join(ctx["work"], "c19.mid")
     per_op, total, single, multi = {}, 0, 0, 0
     for line in open(mid):
-        if " => " not in line or " |" not in line:
+        if " => " not in line or " |" not in line or not line.startswith("sw"):
             continue
         inp, out = line.split(" => ", 1)
         w = inp.split()
